@@ -62,10 +62,13 @@ _SHIFTS = np.array(list(itertools.product((-2, -1, 0, 1, 2), repeat=3)), dtype=f
 
 def min_image(d, box):
     """minimum-image displacement(s): d (..., 3) float64, box (3, 3) rows = cell vectors or None.
-    Brute force over the 125 neighbouring images (exact for any cell whose reduced form needs |n| <= 2)."""
+    First reduced to fractional coordinates in [-1/2, 1/2], then brute force over the 125 neighbouring images
+    (exact for any cell in which the nearest image lies within two lattice steps of the reduced one)."""
     d = np.asarray(d, float)
     if box is None:
         return d
+    frac = d @ np.linalg.inv(box)
+    d = (frac - np.round(frac)) @ box
     imgs = _SHIFTS @ box                                   # (125, 3)
     cand = d[..., None, :] + imgs                          # (..., 125, 3)
     k = np.argmin((cand ** 2).sum(-1), axis=-1)
